@@ -22,9 +22,19 @@ CLASSES = [
     (r'^LDG_(\w+?)__', 'BaseGraph::LabeledDirectedGraph<%s>', 'struct LDG_%s', False),
     (r'^LUG_(\w+?)__', 'BaseGraph::LabeledUndirectedGraph<%s>', 'struct LUG_%s', True),
 ]
+FIXED = {
+    'DM__': ('BaseGraph::DirectedMultigraph', 'struct DM', False, 'uint'),
+    'UM__': ('BaseGraph::UndirectedMultigraph', 'struct UM', True, 'uint'),
+    'DW__': ('BaseGraph::DirectedWeightedGraph', 'struct DW', False, 'real'),
+    'UW__': ('BaseGraph::UndirectedWeightedGraph', 'struct UW', True, 'real'),
+}
 
 
 def classify(fname):
+    for pre, (cpp, abst, undirected, lab) in FIXED.items():
+        if fname.startswith(pre):
+            return {'label': lab, 'graph': cpp, 'abs': abst, 'undirected': undirected,
+                    'cpplabel': CPP_LABEL[lab], 'abslabel': ABS_LABEL[lab], 'fixed': True}
     for pat, cpp, abst, undirected in CLASSES:
         m = re.match(pat, fname)
         if m:
@@ -71,7 +81,7 @@ def replay(prop, res, f, repo, index, outbase, gen, sp, max_n=3, timeout=240):
     cpp = outbase + '.cpp'
     exe = outbase + '.bin'
     open(cpp, 'w').write(src)
-    cmd = ['g++', '-std=c++14', '-O1', '-w', '-fno-access-control', '-I', os.path.join(repo, 'include'),
+    cmd = ['g++', '-std=c++14', '-O1', '-w', '-fno-access-control', '-DBG_L=%s' % info['label'], '-I', os.path.join(repo, 'include'),
            '-I', os.path.join(ROOT, 'shim'), '-I', gen, '-I', os.path.join(ROOT, 'contracts'), '-I', HERE]
     if sanitize:
         cmd += ['-fsanitize=address,undefined', '-fno-sanitize-recover=all', '-D_GLIBCXX_DEBUG', '-D_GLIBCXX_ASSERTIONS', '-g']
@@ -143,7 +153,7 @@ def cpp_clause(expr, label):
 def gen_cpp(target, ent, info, pre, oracle, max_n, repo, gen, sanitize):
     ret, name, params = split_params(ent['sig'])
     lab = info['label']
-    is_ctor = ent['name'].startswith('Labeled') and target.endswith('__ctor')
+    is_ctor = '__ctor' in target
     method = ent['name']
     loops, decls, args, clause_params, descr = [], [], [], [], []
     for t, n in params:
@@ -157,6 +167,10 @@ def gen_cpp(target, ent, info, pre, oracle, max_n, repo, gen, sanitize):
             loops.append('for (int %s##i = 0; %s##i < 2; ++%s##i)'.replace('##', '_') % (n, n, n))
             decls.append('bool %s = %s_i != 0;' % (n, n))
             args.append(n)
+        elif tt == 'bg_real':
+            loops.append('for (int %s_w = 0; %s_w <= 3; ++%s_w)' % (n, n, n))
+            decls.append('bg_real %s = %s_w;' % (n, n))
+            args.append('(double)%s' % n)
         elif tt == 'bg_size':
             loops.append('for (bg_size %s = 0; %s <= (bg_size)N + 2; ++%s)' % (n, n, n))
             args.append(n)
